@@ -3,6 +3,7 @@ from vrun import Kani, Prop
 
 S1 = "S1 std RandomState::new -> fixed SipHash keys (kani::stub); IndexMap order and membership do not depend on the seed"
 S2 = "S2 alloc::fmt::format -> empty string (error text is not part of any property)"
+S7 = "S7 std::io::Error::is_interrupted -> false (harness streams never return Interrupted; std's EINTR retry is not rdp-rs code)"
 S6 = "S6 CBMC pointer-level instrumentation off for library harnesses (no `unsafe` in the library, checked on every snapshot); Rust-level bounds/overflow/unwrap/panic checks stay on"
 DEV = "Kani models the dev profile (overflow checks on); counterexamples are replayed natively in dev and release"
 
@@ -47,7 +48,35 @@ def C13():
                          "TLS record layer (Stream::Ssl)", "x224::Client::read header strip (C05/C06 harnesses)"])
 
 
-PROPS = {"C13": C13}
+def C14():
+    jobs = [
+        Kani("c14_h14a_header_all_sizes",
+             "tpkt_header(size) for every size <= 65531 written by the real Component::write: bytes 03 00 hi lo with hi:lo == size + 4",
+             bounds={"size": "all u16 <= 65531 (precondition established by the E3 query on tpkt::Client::write)", "unwind": 12},
+             symbolic=["size: u16"], functions=["core::tpkt::tpkt_header", "model::data::Component::write", "model::data::U16::write"], timeout=300, mem_gb=4),
+    ]
+    for n in (1, 2, 4, 8):
+        jobs.append(Kani("c14_h14b_short_write_%d" % n,
+                         "Link::write of a %d-byte Vec<u8> message through a stream that accepts a solver-chosen non-empty prefix per write: Ok => all %d bytes delivered in order" % (n, n),
+                         tiers=("quick", "thorough") if n in (2, 8) else ("thorough",),
+                         bounds={"payload": n, "schedule": "each write accepts 1..=len (symbolic)", "unwind": 12}, symbolic=["data", "accepted prefix per write"],
+                         functions=["model::link::Link::write", "model::link::Stream::write", "<Vec<u8> as Message>::write"], timeout=300, mem_gb=4))
+    for k in (0, 1, 2):
+        jobs.append(Kani("c14_h14c_error_at_call_%d" % k, "a transport error injected at write call %d (after any solver-chosen partial writes) makes Link::write return Err; otherwise Ok => all bytes delivered" % k,
+                         tiers=("quick", "thorough") if k == 1 else ("thorough",),
+                         bounds={"payload": 3, "fail_at": k, "unwind": 5}, symbolic=["data", "accepted prefix per write"],
+                         functions=["model::link::Link::write", "model::link::Stream::write", "std::io::Write::write_all"], timeout=300, mem_gb=6))
+    return Prop("C14", [("core/tpkt.rs", "tpkt.rs")], jobs, lowerings=["L2"],
+                assumptions=[S1, S6, S7, DEV, "L2 light error payloads (Error::Io/SslError carry () in the model-checked copy; replay runs on the un-lowered tree)"],
+                stubs=[S1, S7],
+                text="Outbound framing assembled from solver-decided pieces on the real code: TPKT header bytes for every u16 size, Link::write under every short-write schedule and injected error (payload <= 8), and MIR-level queries on tpkt::Client::write (length gating of the u16 cast, header-then-message order, result returned unchanged).",
+                note="tpkt::Client::write as a whole is not executed (a Trame passed as &dyn Message does not terminate in CBMC, DESIGN G5); the composition of the pieces inside Trame::write is argued, not checked. Bounds: payload <= 8 bytes for short-write schedules.",
+                technique="Kani/CBMC bounded model checking (SAT) of tpkt_header and Link::write under symbolic short-write schedules; MIR->SMT (z3) queries on tpkt::Client::write",
+                design_ref="DESIGN.md §4 C14",
+                outside=["tpkt::Client::write end to end", "payloads > 8 bytes under symbolic short writes", "TLS stream"])
+
+
+PROPS = {"C13": C13, "C14": C14}
 
 MIR_PROPS = []
 
@@ -59,5 +88,5 @@ NOT_APPLICABLE = {
     "C15": "CHALLENGE -> AUTHENTICATE needs read_target_info (size idiom) and a 25-field emitter with three to_vec calls; neither is executable by the solver-based engines here",
     "C20": "thread interleavings, select(2) and OpenSSL record buffering are concurrency + FFI; Kani does not model them and no sequential kernel implies the property",
 }
-for _p in ["C01", "C02", "C04", "C05", "C06", "C07", "C08", "C09", "C12", "C14", "C16", "C17", "C18", "C19"]:
+for _p in ["C01", "C02", "C04", "C05", "C06", "C07", "C08", "C09", "C12", "C16", "C17", "C18", "C19"]:
     NOT_APPLICABLE.setdefault(_p, _TODO)
